@@ -87,6 +87,12 @@ CLAIMS["C14"] = dict(
   text="Decides that candidate insertion edits only a fresh copy of the line, that both insertion paths replace exactly [pos-len(prefix), pos) by the prepared candidate, that cancelling restores the virtual line from the real one, that abort only cancels while a completion is active, and that UpdateInserted separates the two keymap dispatches. Unit correctness of len(prefix) and text equality are not decided here (unit findings are reported separately).",
   ref="§5 C14")
 
+CLAIMS["C01"] = dict(
+  level="other",
+  technique="static analysis: whole-module inventories over go/ssa and the VTA call graph — loop termination variants (P1–P5 + reviewed table with re-checked conditions), call-graph SCCs, explicit panics, nil-contradiction and nil-call guards, divisor guards, input-buffer length guards, read-error propagation, channel-send protocol",
+  text="Decides necessary conditions of 'never crashes, spins or deadlocks' for every function reachable from Readline, the commands and the exported API: each loop has a termination variant or a reviewed ranking argument, each recursion a checked bound, no explicit panic, no unguarded nil call / nil dereference after a nil comparison / variable division / input-buffer index, read errors leave the wait loop and reach the caller, sends cannot block in the sequential flow (the cursor-report hand-off is a known finding). Full panic-freedom of all index/slice sites is not decided.",
+  ref="§5 C01")
+
 NA_REASONS = {
  "C15": "Cycle coverage is arithmetic over a grid whose shape is computed at run time from candidate widths and terminal width; no pairing/ownership/ordering/table clause is a necessary condition, and a bounds proof of rows[y][x] needs the same run-time shape invariants. A check would be a brittle proxy (DESIGN.md §5 C15, §8).",
 }
